@@ -269,6 +269,16 @@ theorem restart_from_file_values {α : Type} [Add α] [Sub α] [Mul α] [Div α]
   rw [C17.realization_start_is_segment]
   rfl
 
+/-- the Python front end builds the same start: the value `d_g` of the `a`-th row of the file lands on the
+position the C++ reader uses for layer `a` (so both front ends hand the library the same vector whenever
+the file lists its layers in order) -/
+theorem pyx_start_agrees_with_reader (assort : Bool) (K a g : Nat) :
+    Gen.pyxInitPos assort K a g = Gen.readerIdx assort K g a := by
+  unfold Gen.pyxInitPos Gen.readerIdx
+  cases assort
+  · simp only [Bool.false_eq_true, ↓reduceIte]; ring
+  · simp only [↓reduceIte]; ring
+
 /-- non-vacuity (K = 3, L = 2, general layout): positions of the diagonal entries -/
 example : (List.range 2).map (fun a => (List.range 3).map (fun g => Gen.readerIdx false 3 g a))
     = [[0, 4, 8], [9, 13, 17]] := by decide
